@@ -82,6 +82,7 @@ pub struct Found {
 /// Executes one run on a brand-new thread, so that thread-local state of the code under test
 /// (or anything a previous run left behind on this thread) cannot influence it.
 pub fn execute_isolated(scn: &dyn Scenario, tape: Tape, tier: Tier, tracing: bool, index: u64, prelude: &[(u64, u64)]) -> crate::core::RunResult {
+    crate::core::set_logging_for(index);
     std::thread::scope(|s| {
         s.spawn(move || {
             crate::core::install_panic_hook();
@@ -108,9 +109,11 @@ pub struct BatchResult {
 }
 
 /// Runs `n` runs of one scenario on `nworkers` threads. The result depends only on (seed, n).
-pub fn run_batch(scn: &dyn Scenario, tier: Tier, seed: u64, n: u64, nworkers: usize, keep_hashes: bool, wall_guard_s: f64) -> BatchResult {
+pub fn run_batch(scn: &dyn Scenario, tier: Tier, seed: u64, base: u64, n: u64, nworkers: usize, keep_hashes: bool, wall_guard_s: f64) -> BatchResult {
     let start = Instant::now();
-    let next = AtomicU64::new(0);
+    crate::core::set_logging_for(base);
+    let n = base + n;
+    let next = AtomicU64::new(base);
     // Once a violation is found at index i, no index above i is started (all below i already were).
     let stop_after = AtomicU64::new(u64::MAX);
     let found: Mutex<BTreeMap<String, Found>> = Mutex::new(BTreeMap::new());
@@ -192,7 +195,7 @@ pub fn run_batch(scn: &dyn Scenario, tier: Tier, seed: u64, n: u64, nworkers: us
     found.sort_by_key(|f| f.index);
     // Samples: the first three runs written out in full (re-executed with tracing on).
     let mut samples = Vec::new();
-    for i in 0..n.min(3) {
+    for i in base..n.min(base + 3) {
         let tape = Tape::from_seed(run_seed(seed, scn.name(), i));
         let r = execute(scn, tape, tier, true, i);
         let mut tr: Vec<J> = r.ctx.trace.iter().take(60).map(|s| J::s(truncate(s, 240))).collect();
@@ -209,6 +212,7 @@ pub fn run_batch(scn: &dyn Scenario, tier: Tier, seed: u64, n: u64, nworkers: us
                 .with("trace", J::Arr(tr)),
         );
     }
+    crate::core::set_logging_for(0);
     BatchResult {
         stats,
         found,
